@@ -20,8 +20,11 @@ PROP = dict(
          "Non-trivial = some failure point at or after a connect/disconnect task that had run, or a re-connect of a remembered undesired connection; "
          "distinct by hash of the case. extra.fault_points counts injected failure points, extra.changes_settled all settled changes.",
     assumptions=["failed undo handlers are out of scope (faults are injected in do handlers only)",
-                 "manual connect/disconnect changes contain only the tasks of ifacestate.Connect/Disconnect/Forget (as the daemon builds them: one lane per connection), "
-                 "so there is no failure point after their last task; install/remove changes carry a tail task standing for the rest of the snapstate change",
+                 "manual connect/disconnect/forget changes are the task sets of ifacestate.Connect/Disconnect/Forget; besides every task of the set there is one failure point "
+                 "'a task appended after the whole set, in its lanes, fails' (the connection's own connect/disconnect task is done and undone), followed by a restart; "
+                 "install/remove changes carry a tail task standing for the rest of the snapstate change",
+                 "observed, not judged (extra.observed_forget_inactive_undo_reconnects): a forget of a connection that is not connected (remembered undesired) followed by that "
+                 "synthetic later failure - undoDisconnect restores the undesired conns entry but also connects the pair in the repository; no snapd caller puts a task behind a forget task",
                  "profile clause (3) is only judged for snaps whose recorded Setup view was in sync before the failed change"],
     engines=[
         gt("history", "overlord/ifacestate", "TestVerifC22", dict(checks=30, shards=4), dict(checks=250, shards=16)),
